@@ -5,7 +5,7 @@ CONSTANTS
   MaxItems = 3
   MaxChan = 3
   Labels = {1, 2}
-  Chans = {1, 2}
+  Chans = {0, 1, 2}
   AutoRule = "max"
 INVARIANT InvConforms
 INVARIANT InvAligned
